@@ -188,3 +188,20 @@ def ymd_m(o: Any) -> Any:
 
 def ymd_d(o: Any) -> Any:
     return fld(o, "$d")
+
+
+# ---- LocalDateTime
+def ldt_date(x: Any) -> Any:
+    return fld(x, "_LocalDateTime__date")
+
+
+def ldt_time(x: Any) -> Any:
+    return fld(x, "_LocalDateTime__time")
+
+
+def per(p: Any, name: str) -> Any:
+    return fld(p, f"_Period__{name}")
+
+
+def period_time_ns(p: Any) -> Any:
+    return per(p, "hours") * NPH + per(p, "minutes") * NPM + per(p, "seconds") * NPS + per(p, "milliseconds") * NPMS + per(p, "ticks") * NPT + per(p, "nanoseconds")
